@@ -85,6 +85,30 @@ def make_root(nn_null: bool, bad_raises: bool):
     return {"hero": luke, "heroes": [luke, han], "strict": luke, "n": 1}
 
 
+class SeparateIterable:
+    """AsyncIterable whose __aiter__ returns a different object (the iterator)."""
+
+    def __init__(self, gen):
+        self._gen = gen
+
+    def __aiter__(self):
+        return SeparateIterator(self._gen)
+
+
+class SeparateIterator:
+    def __init__(self, gen):
+        self._gen = gen
+
+    def __aiter__(self):
+        return self
+
+    async def __anext__(self):
+        return await self._gen.__anext__()
+
+    async def aclose(self):
+        await self._gen.aclose()
+
+
 class World:
     """Resolvers for one run: sync or awaitable per position, optional async-generator lists."""
 
@@ -113,15 +137,19 @@ class World:
                     v = (src or {}).get(fname)
                     key = tname + "." + fname
                     is_async = w.sched is not None and key in ASYNCABLE and w.bits[ASYNCABLE.index(key)]
-                    if isinstance(v, list) and w.sched is not None and w.list_kind == 1 and fname in ("friends", "heroes", "strictFriends"):
+                    if isinstance(v, list) and w.sched is not None and w.list_kind in (1, 3) and fname in ("friends", "heroes", "strictFriends"):
                         async def gen(items=v):
                             w.gens_started += 1
                             try:
-                                for it in items:
+                                for pos, it in enumerate(items):
+                                    if getattr(w, "source_fail_at", None) == pos:
+                                        raise Boom("source failed")
                                     w.n += 1
                                     yield await w.awaiter(key + "#" + str(w.n), w.sched.future(it, None, key + "[]"))
                             finally:
                                 w.gens_closed += 1
+                        if w.list_kind == 3:
+                            return SeparateIterable(gen())  # an AsyncIterable that is not its own iterator
                         return gen()
                     if isinstance(v, list) and w.sched is not None and w.list_kind == 2 and fname in ("friends", "heroes", "strictFriends"):
                         out = []
@@ -166,18 +194,34 @@ class Delivery:
         self.hook_dirty = False
 
 
-def run_incremental(doc_i, root, flags, bits, list_kind, early, lazy, choices, stop_after=None, stop_kind=0, abort=None):
-    """flags: the `if` value of each directive.  Returns (Delivery, loop, sched, world)."""
+def run_incremental(doc_i, root, flags, bits, list_kind, early, lazy, choices, stop_after=None, abort_at=None, abort_reason=None, source_fail_at=None):
+    """flags: the `if` value of each directive.  Returns (Delivery, loop, sched, world).
+    stop_after: aclose() the payload stream after that many subsequent payloads;
+    abort_at: trigger the abort signal just before the abort_at-th settlement."""
+    from graphql.pyutils import AbortController
+
     schema = build_schema(SDL)
     loop = DetLoop()
     sched = Scheduler(loop, choices)
+    abort = None
+    if abort_at is not None:
+        controller = AbortController()
+        abort = controller.signal
+
+        def maybe_abort(s):
+            if s.settled == abort_at and not abort.aborted:
+                controller.abort(abort_reason)
+        sched.before_settle = maybe_abort
     world = World(sched, bits, list_kind)
+    world.source_fail_at = source_fail_at
     world.install(schema)
     d = Delivery()
 
     def hook(info):
         d.hook_calls += 1
-        if loop.pending_tasks_except_current() or world.inflight:
+        # tracked work = what the execution started: resolver coroutines still in flight
+        # (the consumer's own awaiting task is not work of the execution)
+        if world.inflight:
             d.hook_dirty = True
 
     variables = {"d" + str(k): flags[k] for k in range(len(flags))}
